@@ -800,6 +800,9 @@ func (g *generator) enterNextFinallyFrame() (canContinue bool) {
 			vm.throw(ex)
 			return true
 		}
+		// closing the iterators may have grown (reallocated) the try stack: tf must be re-read, otherwise
+		// the updates below are lost and the finally block falls through to the code after the try statement
+		tf = &vm.tryStack[len(vm.tryStack)-1]
 		if tf.finallyPos >= 0 {
 			vm.sp = int(tf.sp)
 			vm.stash = tf.stash
